@@ -1141,12 +1141,17 @@ func (n *StringNode) Format(buf *bytes.Buffer, indent string, onNewLine bool) {
 		onNewLine = true
 	}
 	writeIndent(buf, indent, onNewLine)
-	if n.TripleQuotes {
+	tripleQuotes := n.TripleQuotes
+	if !tripleQuotes && strings.HasSuffix(n.Literal, "\\") && !strings.Contains(n.Literal, "'''") {
+		// A single quoted string cannot end with a backslash, it would escape the closing quote.
+		tripleQuotes = true
+	}
+	if tripleQuotes {
 		buf.WriteString("'''")
 	} else {
 		buf.WriteByte('\'')
 	}
-	if n.TripleQuotes {
+	if tripleQuotes {
 		buf.WriteString(n.Literal)
 	} else {
 		for _, c := range n.Literal {
@@ -1156,7 +1161,7 @@ func (n *StringNode) Format(buf *bytes.Buffer, indent string, onNewLine bool) {
 			buf.WriteRune(c)
 		}
 	}
-	if n.TripleQuotes {
+	if tripleQuotes {
 		buf.WriteString("'''")
 	} else {
 		buf.WriteByte('\'')
